@@ -45,7 +45,7 @@ C_EXEMPT: Dict[Tuple[str, str], str] = {}
 
 
 def _fitted_name(a: str) -> bool:
-    return a.endswith("_") and not a.startswith("_") and not a.endswith("__")
+    return a.endswith("_") and not a.startswith("__") and not a.endswith("__")
 
 
 def _private_state(a: str) -> bool:
